@@ -2,6 +2,7 @@ package builder
 
 import (
 	"fmt"
+	"sort"
 
 	"github.com/dave/jennifer/jen"
 	"github.com/jmattheis/goverter/config"
@@ -104,7 +105,13 @@ func (*Enum) Build(gen Generator, ctx *MethodContext, sourceID *xtype.JenID, sou
 	}
 	cases = append(cases, jen.Default().Add(body))
 
-	for name := range definedKeys {
+	if len(definedKeys) > 0 {
+		names := make([]string, 0, len(definedKeys))
+		for name := range definedKeys {
+			names = append(names, name)
+		}
+		sort.Strings(names)
+		name := names[0]
 		return nil, nil, NewError(fmt.Sprintf("Configured enum value %s does not exist on\n    %s", name, source.String)).
 			Lift(&Path{
 				Prefix:     ".",
